@@ -531,7 +531,11 @@ def build(plan, block_order=None, wire_order=None, subst=None, extra=None, pause
         ck = (sspec.get(path) or {}).get('clock')
         if ck:
             en = get_wire(ck['enable']) if ck.get('enable') else None
-            box.clockDriver = py4hw.ClockDriver(ck['name'], base=hw.clockDriver, enable=en)
+            if ck.get('freq'):
+                # a driver of its own frequency (base=None: ClockDriver copies the frequency of a base driver)
+                box.clockDriver = py4hw.ClockDriver(ck['name'], freq=ck['freq'], enable=en)
+            else:
+                box.clockDriver = py4hw.ClockDriver(ck['name'], base=hw.clockDriver, enable=en)
         return box
 
     worder = list(wire_order) if wire_order is not None else [w['id'] for w in plan['wires']]
@@ -1250,7 +1254,7 @@ def gen_seq(rnd, n_seq, shape=None, fsm=True):
         elif mode == 'delayed':
             en = g.wire(1)
             reg(g.input(1), en)
-        plan['scopes'] = [dict(path='dom', clock=dict(name='ckB', enable=en, mode=mode))]
+        plan['scopes'] = [dict(path='dom', clock=dict(name='ckB', enable=en, mode=mode, freq=rnd.choice([None, 50E6, 25E6, 12.5E6, 1E6, 100E6])))]
         qs = [g.wire(w) for _ in range(n_seq)]
         for i in range(n_seq):
             src = qs[i - 1]
